@@ -17,6 +17,8 @@ type c06Case struct {
 	A    val    `json:"a"`
 	B    val    `json:"b"`
 	Safe bool   `json:"safe"`
+	// Host > 0: the operands are built from host values through NewVariant / VariantFromObject (int32, uint, uint32 ...)
+	Host int `json:"host,omitempty"`
 }
 
 func applyOp(ops variants.IVariantOperations, op string, a, b *variants.Variant) (*variants.Variant, error) {
@@ -94,6 +96,9 @@ func numericValue(v val) (float64, bool) {
 func checkC06(c c06Case) *evid.Fail {
 	ops := opsManager(c.Safe)
 	a, b := c.A.toVariant(), c.B.toVariant()
+	if c.Host > 0 {
+		a, b = c.A.toHostVariant(c.Host), c.B.toHostVariant(c.Host+1)
+	}
 	cell := fmt.Sprintf("%s(%s,%s)", c.Op, c.A.K, c.B.K)
 	desc := func() string {
 		m := "type-unsafe"
@@ -210,11 +215,11 @@ func TestC06_Exhaustive(t *testing.T) {
 		for _, safe := range []bool{false, true} {
 			for _, op := range refOperators {
 				if isUnary(op) {
-					c06Run(rec, c06Case{op, a, vNull(), safe})
+					c06Run(rec, c06Case{Op: op, A: a, B: vNull(), Safe: safe})
 					continue
 				}
 				for _, b := range pool {
-					c06Run(rec, c06Case{op, a, b, safe})
+					c06Run(rec, c06Case{Op: op, A: a, B: b, Safe: safe})
 				}
 			}
 		}
@@ -312,7 +317,8 @@ func TestC06_Rapid(t *testing.T) {
 	rec := evid.New("C06", "TestC06_Rapid", "C06", c06Rule+"; rapid: pairs drawn from the pool (60%) or fresh random values of every type")
 	defer finish(t, rec)
 	runRapid(t, pick(60000, 400000), 6, func(rt *rapid.T) {
-		c := c06Case{rapid.SampledFrom(refOperators).Draw(rt, "op"), genValue(rt, 2), genValue(rt, 2), rapid.IntRange(0, 3).Draw(rt, "safe") == 0}
+		c := c06Case{Op: rapid.SampledFrom(refOperators).Draw(rt, "op"), A: genValue(rt, 2), B: genValue(rt, 2), Safe: rapid.IntRange(0, 3).Draw(rt, "safe") == 0,
+			Host: rapid.SampledFrom([]int{0, 0, 0, 1, 2, 3, 4}).Draw(rt, "host")}
 		if isUnary(c.Op) {
 			c.B = vNull()
 		}
